@@ -14,8 +14,9 @@
 (*        stage);                                                          *)
 (*   C17  logged builder invocations are exactly the keys new since the    *)
 (*        previous run, once each (CallsExact); the logged runs of the     *)
-(*        per-key closures satisfy RunsQuiet; nothing runs while           *)
-(*        unobserved;                                                      *)
+(*        per-key closures satisfy RunsQuiet; for S1 and S2 the number of  *)
+(*        recomputed nodes (engine statistic) equals the model's; nothing  *)
+(*        runs while unobserved;                                           *)
 (*   MODEL the model itself violates one of its invariants at this scope   *)
 (*        (a defect of the specification, not of the code).                *)
 (* A failed predicate prints <<"JUDGE", line, json>>.  The trace is        *)
@@ -24,7 +25,8 @@
 (* Lines: {"a":"reset","run":r} | {"a":"set","m":[[k,v],..]}                *)
 (*  | {"a":"outer","w":n} | {"a":"observe"} | {"a":"unobserve"}             *)
 (*  | {"a":"stabilise","obs":[{"inst","shape","filter","cut","mt",          *)
-(*        "observed","err","out","calls":[k..],"runs":[{"role","key"}]}]}   *)
+(*        "observed","err","out","calls":[k..],"runs":[{"role","key"}],     *)
+(*        "nrec":n}]}                                                       *)
 (*  | {"a":"panic","inst","shape","mt","msg","during"}  (written before    *)
 (*    the line of the action that panicked; the instance is dead after it) *)
 (*                                                                         *)
@@ -64,8 +66,8 @@ JudgeEntry(s, x) ==
       want == MapSeq(MapiDef(i.shape, i.filter, IF ReadsInput(i.shape) THEN r.eff ELSE s.input, s.w))
       runs == RelevantRuns(x.runs, s.input)
   IN IF ~x.observed
-     THEN IF x.calls # <<>> \/ x.runs # <<>>
-          THEN {Bad("C17", "user functions called while unobserved", x)} ELSE {}
+     THEN IF x.calls # <<>> \/ x.runs # <<>> \/ x.nrec # 0
+          THEN {Bad("C17", "work done while unobserved", x)} ELSE {}
      ELSE IF ~s.observed THEN {Bad("C16", "entry for an output that is not observed", x)}
      ELSE IF x.err # "" THEN {Bad("C16", "observer error: " \o x.err, x)}
      ELSE (IF x.out # want THEN {Bad("C16", "output differs from the definition", x)} ELSE {})
@@ -73,6 +75,9 @@ JudgeEntry(s, x) ==
                 THEN {Bad("C17", "builder not invoked exactly once for each new key", x)} ELSE {})
           \cup (IF ~RunsQuiet(i, r, TRUE, runs)
                 THEN {Bad("C17", "per-key closures of unchanged keys were run", x)} ELSE {})
+          \cup (IF i.shape \in CountedShapes /\ x.nrec # r.nrec
+                THEN {Bad("C17", "number of recomputed nodes differs from the model (per-key nodes of unchanged keys recomputed)", x)}
+                ELSE {})
 
 JudgeStabilise(s, e, dd) ==
   UNION {JudgeEntry(s, e.obs[j]) : j \in DOMAIN e.obs}
